@@ -2,6 +2,8 @@ import Proofs.C16.Musig2Agg
 import Proofs.C16.SilentPayments
 import Proofs.C16.Pedersen
 import Proofs.C16.SilentPaymentsComplete
+import Proofs.E2E.C16
+import Proofs.C16.Ecies
 /-!
 # C16 — property theorems only (see DESIGN.md §3 C16).
 
@@ -266,5 +268,167 @@ theorem pedersen_commit_verifies (L : Lawful o G) (Hp : α) (r v : Int) (C : α)
 theorem pedersen_verify_characterised (L : Lawful o G) (Hp : α) (r v : Int) (C : α) :
     pedersenVerify o Hp r v C = true ↔ L.abs C = r • L.abs o.gen + v • L.abs Hp ∧ L.abs C ≠ 0 :=
   pedersen_verify_iff L Hp r v C
+
+/-! ## ECIES (BIE1, `ecc/ecies.py`) -/
+
+/-- **T7 (round trip).** For the recipient key pair `(d, P = d•G)`: whatever envelope `encrypt` answers
+(any ephemeral key, message, magic), `decrypt` with `d` parses it, accepts its MAC and returns the
+message — for ANY cipher with `D(k, iv, E(k, iv, m)) = m` and ANY MAC, sha512 a parameter too. -/
+theorem ecies_decrypt_encrypt (L : Lawful o G) (h512 : Bytes → Bytes) (mac : Bytes → Bytes → Bytes)
+    (hp : o.p ≤ 256 ^ 32) (encF decF : Bytes → Bytes → Bytes → R Bytes)
+    (hD : ∀ k iv m c, encF k iv m = .ok c → decF k iv c = .ok m)
+    (d : Int) (hd : 0 < d ∧ d < o.n) (P : α) (hP : L.abs P = d • L.abs o.gen)
+    (q : Int) (msg magic env : Bytes)
+    (h : eciesEncrypt o h512 mac encF msg P q magic = .ok env) :
+    eciesDecrypt o h512 mac decF env d magic = .ok msg :=
+  ecies_roundtrip L h512 mac hp encF decF hD d hd P hP q msg magic env h
+
+/-- **T7 (MAC-then-decrypt).** Any accepted envelope, under any key `d'`, carries as its tag the MAC of
+its framing under the MAC key derived from `d'•E` (`E` the ephemeral point): nothing is decrypted
+otherwise. -/
+theorem ecies_accepts_only_its_mac (h512 : Bytes → Bytes) (mac : Bytes → Bytes → Bytes)
+    (decF : Bytes → Bytes → Bytes → R Bytes) (data : Bytes) (d' : Int) (magic m : Bytes)
+    (h : eciesDecrypt o h512 mac decF data d' magic = .ok m) :
+    ∃ E : α, cpoint o ((data.drop 4).take 33) = .ok E ∧
+      ((data.drop 4).drop 33).drop (((data.drop 4).drop 33).length - 32)
+        = mac (eciesKeys o h512 d' E).2.2
+            (data.take 4 ++ ((data.drop 4).take 33
+              ++ ((data.drop 4).drop 33).take (((data.drop 4).drop 33).length - 32))) :=
+  ecies_accept_inv h512 mac decF data d' magic m h
+
+/-- **T7 (wrong key ⇒ different MAC key input).** A key `d' ≢ d (mod n)` derives its keys from a
+compressed shared point DIFFERENT from the sender's: with the previous theorem, an envelope made for
+`P = d•G` is accepted under `d'` only if sha512's last 32 bytes collide on these two explicit inputs
+or the MAC collides under two keys (the reduction; no cryptographic assumption is proved). -/
+theorem ecies_wrong_key_different_kdf_input (L : Lawful o G) (hp : o.p ≤ 256 ^ 32) (d d' q : Int)
+    (hq : 0 < q ∧ q < o.n) (hdd : (d' - d) % o.n ≠ 0) (P E : α)
+    (hP : L.abs P = d • L.abs o.gen) (hE : L.abs E = q • L.abs o.gen)
+    (h1 : L.abs (o.mul d' E) ≠ 0) (h2 : L.abs (o.mul q P) ≠ 0) :
+    cbytes o (o.mul d' E) ≠ cbytes o (o.mul q P) :=
+  ecies_wrong_key_kdf_input L hp d d' q hq hdd P E hP hE h1 h2
+
+/-- a cipher satisfying the round-trip hypothesis exists (the identity "cipher"), and the generated
+BIE1 sizes are the ones the proofs used -/
+example : ∀ k iv m c, (fun (_ _ : Bytes) (m : Bytes) => (Except.ok m : R Bytes)) k iv m = .ok c →
+    (fun (_ _ : Bytes) (m : Bytes) => (Except.ok m : R Bytes)) k iv c = .ok m := by
+  intro k iv m c h; cases h; rfl
+example : eMagicSize = 4 ∧ eEphSize = 33 ∧ eMacSize = 32 ∧ eBlockSize = 16
+    ∧ Gen.Interactive.ECIES_MAGIC = [66, 73, 69, 49] := by decide
+
+end Props.C16
+
+/-! ## End to end: the same theorems about `Btc.EC.ops C`, no `Lawful` hypothesis
+
+`L : Lawful o G` above is discharged by C01's capstone `Btc.C01.lawful_ec`, for every curve with `CurveOk p C` and
+`p ≡ 3 (mod 4)` (proofs: Proofs/E2E/C16.lean).  ECDH (T5) and the silent-payment agreement (T9) never call `lift_x`:
+they are about `Btc.EC.ops C` ITSELF, raw integer pairs.  MuSig2 (T2, T3) parses every key and nonce with `lift_x`
+throughout the session: stated over `opsSub K` (`Btc.EC.ops C` on the underlying pairs, `lift_x` answering inside the
+`n`-torsion; `Btc.C01.opsSub_val`).  For secp256k1 the only hypotheses are the primality of `p` and of `n`. -/
+namespace Props.C16
+open Btc Btc.EC Btc.C01 Btc.E2E Btc.Py Btc.C16
+
+/-- T5 on btclib's arithmetic, any curve -/
+theorem ecdh_symmetric_ec {p : ℕ} [Fact p.Prime] {C : Curve} (K : CurveOk p C) (h34 : p % 4 = 3)
+    (kdf : Bytes → R Bytes) (a b : ℤ) :
+    diffieHellman (EC.ops C) kdf a ((EC.ops C).mul b C.G) = diffieHellman (EC.ops C) kdf b ((EC.ops C).mul a C.G) :=
+  Btc.E2E.ecdh_symmetric_ec K h34 kdf a b
+
+/-- T9 (agreement) on btclib's arithmetic, any curve -/
+theorem sp_sender_scanner_agree_ec {p : ℕ} [Fact p.Prime] {C : Curve} (K : CurveOk p C) (h34 : p % 4 = 3)
+    (H : Bytes → Bytes → Bytes) (keys : List (ℤ × Bool)) (a : ℤ) (h : prvKeySum (EC.ops C) keys = .ok a)
+    (A : Point) (hA : pubKeySum (EC.ops C) (keys.map fun k => spInputPoint (EC.ops C) k.1 k.2) = .ok A)
+    (lowest : Bytes) (hh : ℤ) (hih : inputHash (EC.ops C) H lowest ((EC.ops C).mul a C.G) = .ok hh)
+    (bScan : ℤ) (hb : 0 < bScan ∧ bScan < C.n) :
+    inputHash (EC.ops C) H lowest A = .ok hh ∧
+    ∀ k, outputTweak (EC.ops C) H ((EC.ops C).mul (hh * a % C.n) ((EC.ops C).mul bScan C.G)) k
+        = outputTweak (EC.ops C) H ((EC.ops C).mul bScan ((EC.ops C).mul hh A)) k :=
+  Btc.E2E.sp_sender_scanner_agree_ec K h34 H keys a h A hA lowest hh hih bScan hb
+
+/-- T9 (inputs) on btclib's arithmetic, any curve: the scanner's key sum answers and is `==` to `mult a G` -/
+theorem sp_input_sums_agree_ec {p : ℕ} [Fact p.Prime] {C : Curve} (K : CurveOk p C) (h34 : p % 4 = 3)
+    (keys : List (ℤ × Bool)) (a : ℤ) (h : prvKeySum (EC.ops C) keys = .ok a) :
+    0 < a ∧ a < C.n ∧
+    ∃ A, pubKeySum (EC.ops C) (keys.map fun k => spInputPoint (EC.ops C) k.1 k.2) = .ok A ∧
+      (EC.ops C).eq A ((EC.ops C).mul a C.G) = true :=
+  Btc.E2E.sp_input_sums_agree_ec K h34 keys a h
+
+/-- T2 over `opsSub K`, any curve -/
+theorem musig2_partial_sig_verifies_ec {p : ℕ} [Fact p.Prime] {C : Curve} (K : CurveOk p C) (h34 : p % 4 = 3)
+    (H : Bytes → Bytes → Bytes) (hp : C.p ≤ 256 ^ 32) (hn : C.n ≤ 256 ^ 32) (s : SessionCtx) (d k1 k2 σ : ℤ)
+    (hs : sign (opsSub K) H k1 k2 (individualPubKey (EC.ops C) d) d s = .ok σ) :
+    partialSigVerify (opsSub K) H (sBytes σ)
+      (cbytes (EC.ops C) ((EC.ops C).mul k1 C.G) ++ cbytes (EC.ops C) ((EC.ops C).mul k2 C.G))
+      (individualPubKey (EC.ops C) d) s = .ok true :=
+  Btc.E2E.musig2_partial_sig_verifies_ec K h34 H hp hn s d k1 k2 σ hs
+
+/-- T3 over `opsSub K`, any curve -/
+theorem musig2_aggregate_verifies_ec {p : ℕ} [Fact p.Prime] {C : Curve} (K : CurveOk p C) (h34 : p % 4 = 3)
+    (H : Bytes → Bytes → Bytes) (hp : C.p ≤ 256 ^ 32) (hn : C.n ≤ 256 ^ 32) (l : List Signer)
+    (hl : ∀ t ∈ l, t.ok (EC.ops C)) (tweaks : List (Bytes × Bool)) (msg an : Bytes)
+    (han : nonceAgg (opsSub K) (l.map (Signer.pubNonce (opsSub K))) = .ok an)
+    (v : SessionValues (SubPt p C))
+    (hv : sessionValues (opsSub K) H (honestCtx (opsSub K) l an tweaks msg none) = .ok v)
+    (hR : ((l.map Signer.k1).sum + v.b * (l.map Signer.k2).sum) % C.n ≠ 0)
+    (sigs : List ℤ)
+    (hs : List.Forall₂ (fun t σ => sign (opsSub K) H t.k1 t.k2 (t.pk (opsSub K)) t.d
+      (honestCtx (opsSub K) l an tweaks msg none) = .ok σ) l sigs) :
+    ∃ r sg, partialSigAgg (opsSub K) H (sigs.map sBytes) (honestCtx (opsSub K) l an tweaks msg none) = .ok (r, sg) ∧
+      bip340Verify (opsSub K) H ((EC.ops C).x v.Q.1) msg r sg = true :=
+  Btc.E2E.musig2_aggregate_verifies_ec K h34 H hp hn l hl tweaks msg an han v hv hR sigs hs
+
+/-- T5 on secp256k1: ONLY primality of `p` and `n` assumed -/
+theorem ecdh_symmetric_secp256k1 (hp : Nat.Prime secp256k1_p) (hn : Nat.Prime secp256k1_n)
+    (kdf : Bytes → R Bytes) (a b : ℤ) :
+    diffieHellman (EC.ops secp256k1) kdf a ((EC.ops secp256k1).mul b secp256k1.G) =
+      diffieHellman (EC.ops secp256k1) kdf b ((EC.ops secp256k1).mul a secp256k1.G) :=
+  Btc.E2E.ecdh_symmetric_secp256k1 hp hn kdf a b
+
+/-- T9 (agreement) on secp256k1 -/
+theorem sp_sender_scanner_agree_secp256k1 (hp : Nat.Prime secp256k1_p) (hn : Nat.Prime secp256k1_n)
+    (H : Bytes → Bytes → Bytes) (keys : List (ℤ × Bool)) (a : ℤ) (h : prvKeySum (EC.ops secp256k1) keys = .ok a)
+    (A : Point)
+    (hA : pubKeySum (EC.ops secp256k1) (keys.map fun k => spInputPoint (EC.ops secp256k1) k.1 k.2) = .ok A)
+    (lowest : Bytes) (hh : ℤ)
+    (hih : inputHash (EC.ops secp256k1) H lowest ((EC.ops secp256k1).mul a secp256k1.G) = .ok hh)
+    (bScan : ℤ) (hb : 0 < bScan ∧ bScan < secp256k1.n) :
+    inputHash (EC.ops secp256k1) H lowest A = .ok hh ∧
+    ∀ k, outputTweak (EC.ops secp256k1) H
+          ((EC.ops secp256k1).mul (hh * a % secp256k1.n) ((EC.ops secp256k1).mul bScan secp256k1.G)) k
+        = outputTweak (EC.ops secp256k1) H ((EC.ops secp256k1).mul bScan ((EC.ops secp256k1).mul hh A)) k :=
+  Btc.E2E.sp_sender_scanner_agree_secp256k1 hp hn H keys a h A hA lowest hh hih bScan hb
+
+/-- T2 on secp256k1 (`secpOps hp hn` = `opsSub` of secp256k1) -/
+theorem musig2_partial_sig_verifies_secp256k1 (hp : Nat.Prime secp256k1_p) (hn : Nat.Prime secp256k1_n)
+    (H : Bytes → Bytes → Bytes) (s : SessionCtx) (d k1 k2 σ : ℤ)
+    (hs : sign (secpOps hp hn) H k1 k2 (individualPubKey (EC.ops secp256k1) d) d s = .ok σ) :
+    partialSigVerify (secpOps hp hn) H (sBytes σ)
+      (cbytes (EC.ops secp256k1) ((EC.ops secp256k1).mul k1 secp256k1.G) ++
+        cbytes (EC.ops secp256k1) ((EC.ops secp256k1).mul k2 secp256k1.G))
+      (individualPubKey (EC.ops secp256k1) d) s = .ok true :=
+  Btc.E2E.musig2_partial_sig_verifies_secp256k1 hp hn H s d k1 k2 σ hs
+
+/-- T3 on secp256k1 -/
+theorem musig2_aggregate_verifies_secp256k1 (hp : Nat.Prime secp256k1_p) (hn : Nat.Prime secp256k1_n)
+    (H : Bytes → Bytes → Bytes) (l : List Signer) (hl : ∀ t ∈ l, t.ok (EC.ops secp256k1))
+    (tweaks : List (Bytes × Bool)) (msg an : Bytes)
+    (han : nonceAgg (secpOps hp hn) (l.map (Signer.pubNonce (secpOps hp hn))) = .ok an)
+    (v : SessionValues (SecpPt hp))
+    (hv : sessionValues (secpOps hp hn) H (honestCtx (secpOps hp hn) l an tweaks msg none) = .ok v)
+    (hR : ((l.map Signer.k1).sum + v.b * (l.map Signer.k2).sum) % secp256k1.n ≠ 0)
+    (sigs : List ℤ)
+    (hs : List.Forall₂ (fun t σ => sign (secpOps hp hn) H t.k1 t.k2 (t.pk (secpOps hp hn)) t.d
+      (honestCtx (secpOps hp hn) l an tweaks msg none) = .ok σ) l sigs) :
+    ∃ r sg, partialSigAgg (secpOps hp hn) H (sigs.map sBytes) (honestCtx (secpOps hp hn) l an tweaks msg none)
+        = .ok (r, sg) ∧
+      bip340Verify (secpOps hp hn) H ((EC.ops secp256k1).x v.Q.1) msg r sg = true :=
+  Btc.E2E.musig2_aggregate_verifies_secp256k1 hp hn H l hl tweaks msg an han v hv hR sigs hs
+
+-- non-vacuity on `y² = x³ + 7` over `F₄₃` (`CurveOk` PROVED, nothing assumed): an ECDH run and what T5 says of the
+-- other side; a two-input silent payment (one taproot input with odd y) with every hypothesis of T9 computed
+example : diffieHellman (EC.ops toyC) (fun b => .ok b) 3 ((EC.ops toyC).mul 5 toyC.G) = .ok [38] := toy_ecdh
+example : diffieHellman (EC.ops toyC) (fun b => .ok b) 5 ((EC.ops toyC).mul 3 toyC.G) = .ok [38] := toy_ecdh_other
+example : inputHash (EC.ops toyC) toyH [1] (32, 40) = .ok 21 ∧
+    ∀ k, outputTweak (EC.ops toyC) toyH ((EC.ops toyC).mul (21 * 8 % 31) ((EC.ops toyC).mul 7 toyC.G)) k
+      = outputTweak (EC.ops toyC) toyH ((EC.ops toyC).mul 7 ((EC.ops toyC).mul 21 (32, 40))) k := toy_sp_agree
 
 end Props.C16
